@@ -641,7 +641,7 @@ SPEC = Spec(
         "recognisers see the un-cast expression; operands are recognised only "
         "through their exact broadcast subscript in a lambda whose shape equals the "
         "operands' broadcast shape. "
-        "R19-PATTERN also: the recognisers never look through a TypeCast; kept (non-reduced) subscripts are matched as _0, _1, ... in order with a counter that advances exactly once per matched kept axis; integer tests on reduction bounds use INT_CLASSES."),
+        "R19-PATTERN also: the recognisers never look through a TypeCast; on the case table of one iteration of the per-subscript loop: the counter of kept axes never moves on a reduced axis, a kept axis ends in `return False` unless its name is `_<counter>` AND its length agrees, and in exactly that case the counter advances by one; integer tests on reduction bounds use INT_CLASSES."),
     not_decided=(
         "That applying the recognised operation with NumPy reproduces the pointwise "
         "value; near-miss rejection for arbitrary hand-built expressions (subscript "
